@@ -399,11 +399,17 @@ fn legacy_sql(version: &str) -> Vec<String> {
     v
 }
 
-/// Pre-loaded content: two tasks, three operations, working set, base version.
+/// Pre-loaded content: two tasks, two synchronized and three unsynchronized operations, working
+/// set, base version.
 fn preload(con: &rusqlite::Connection, with_synced: bool) -> InMemoryStorage {
     let t1 = map(2);
     let t2 = map(1);
+    // where the schema has the column, the first two operations are already synchronized
+    let synced_ops: Vec<Operation> = if with_synced { vec![op(0), op(1)] } else { vec![] };
     let ops_ = [op(0), op(1), op(3)];
+    for o in &synced_ops {
+        con.execute("INSERT INTO operations (data, synced) VALUES (?, true)", rusqlite::params![serde_json::to_string(o).unwrap()]).unwrap();
+    }
     con.execute("INSERT INTO tasks (uuid, data) VALUES (?, ?)", rusqlite::params![u(1).to_string(), serde_json::to_string(&t1).unwrap()]).unwrap();
     con.execute("INSERT INTO tasks (uuid, data) VALUES (?, ?)", rusqlite::params![u(2).to_string(), serde_json::to_string(&t2).unwrap()]).unwrap();
     for o in &ops_ {
@@ -422,6 +428,12 @@ fn preload(con: &rusqlite::Connection, with_synced: bool) -> InMemoryStorage {
         let mut t = mem.txn().await.unwrap();
         t.set_task(u(1), t1).await.unwrap();
         t.set_task(u(2), t2).await.unwrap();
+        if !synced_ops.is_empty() {
+            for o in synced_ops {
+                t.add_operation(o).await.unwrap();
+            }
+            t.sync_complete().await.unwrap();
+        }
         for o in ops_ {
             t.add_operation(o).await.unwrap();
         }
